@@ -13,6 +13,7 @@ by C02's iterated-fetch contract (taken as a HYPOTHESIS: it is the definition of
 (`last_offset_counterexample` shows why), contiguous stored offsets.
 -/
 import KafkaVerif.Lemmas.CommitSync
+import KafkaVerif.Lemmas.CommitTwo
 import KafkaVerif.Model.GroupStart
 import KafkaVerif.Gen.GroupFacts
 import KafkaVerif.Lemmas.Group
@@ -81,6 +82,31 @@ example : (crun {} sample).map (fun s => (s.sent.length, s.replied.map (fun r =>
 
 /-- a request beyond what was handed is not a behaviour of the model -/
 example : crun {} [.call 0 [(("t", 0), 4)], .begin true, .deq [⟨("t", 0), 5⟩] false, .attempt [(("t", 0), 6)] true] = none := by
+  decide
+
+/-! ### two commit loops at once (a late-started loop of the previous generation, D8 shape) -/
+
+/-- `commit_le_handed` when a late-started commit loop of an ended generation runs concurrently with the current
+generation's loop (both drain the same channel, each with its own stash): every offset either of them sends is covered -/
+theorem commit_le_handed_two_loops (s : CState) (h : CReachable2 s) :
+    ∀ x ∈ s.sent, ∀ e ∈ x.1, ∃ m, (e.1, m) ∈ s.passed ∧ e.2 ≤ m + 1 :=
+  (inv2_reachable s h).cov.sent
+
+/-- … and whichever loop answers a synchronous CommitMessages with nil, the request is recorded by an acknowledged
+OffsetCommit issued after the call began -/
+theorem sync_commit_recorded_two_loops (s : CState) (h : CReachable2 s) (id : Nat) (hr : (id, true) ∈ s.rets) :
+    ∃ r : Req, r.id = id ∧ ∀ c ∈ r.commits, ∃ i offs, s.sent[i]? = some (offs, true) ∧ r.sentAtCall ≤ i ∧
+      ∃ o, (c.tp, o) ∈ offs ∧ c.offset ≤ o := by
+  obtain ⟨r, h1, h2⟩ := (inv2_reachable s h).ret (id, true) hr
+  exact ⟨r, h1, (inv2_reachable s h).sinv.recr (r, true) h2 rfl⟩
+
+/-- non-vacuity: the late loop drains request 0 and its first attempt is refused (stale generation) while the current
+loop takes request 1 and gets it acknowledged; then the late loop's retry is acknowledged too -/
+example : (crun2 {} [.main (.call 0 [(("t", 0), 4)]), .late (.begin true), .late .genEnd, .late (.deq [⟨("t", 0), 5⟩] true),
+    .main (.begin true), .main (.call 1 [(("t", 0), 6)]), .late (.attempt [(("t", 0), 5)] false),
+    .main (.deq [⟨("t", 0), 7⟩] false), .main (.attempt [(("t", 0), 7)] true), .main .replied, .main (.ret 1 true),
+    .late (.attempt [(("t", 0), 5)] true), .late (.reply true), .late .endLoop, .main (.ret 0 true)]).map
+    (fun s => (s.sent.map (·.2), s.rets, s.lpc, s.pc)) = some ([false, true, true], [(1, true), (0, true)], .none, .idle) := by
   decide
 
 /-! ### merge -/
